@@ -12,7 +12,7 @@
 
 //! Restore from the archive to the filesystem.
 
-use std::collections::HashMap;
+use std::collections::{HashMap, HashSet};
 use std::fs::{File, create_dir_all};
 use std::io::{self, Write};
 use std::path::{Path, PathBuf};
@@ -99,8 +99,26 @@ pub async fn restore(
         monitor.clone(),
     );
     let mut deferrals = Vec::new();
+    // Symlinks created so far. A version stitched from an interrupted backup can hold a symlink
+    // and, from an older band, entries below the same path: restoring those would follow the
+    // link and write outside the destination.
+    let mut restored_symlinks: HashSet<String> = HashSet::new();
     while let Some(entry) = stitch.next().await {
         task.set_name(format!("Restore {}", entry.apath));
+        if !restored_symlinks.is_empty() {
+            let mut ancestor: &str = &entry.apath;
+            let mut below_symlink = false;
+            while let Some(slash) = ancestor.rfind('/').filter(|slash| *slash > 0) {
+                ancestor = &ancestor[..slash];
+                below_symlink |= restored_symlinks.contains(ancestor);
+            }
+            if below_symlink {
+                monitor.error(Error::InvalidMetadata {
+                    details: format!("{:?} is below a restored symlink", entry.apath()),
+                });
+                continue;
+            }
+        }
         let path = destination.join(&entry.apath[1..]);
         match entry.kind() {
             Kind::Dir => {
@@ -137,6 +155,7 @@ pub async fn restore(
                     monitor.error(err);
                     continue;
                 }
+                restored_symlinks.insert(entry.apath.to_string());
             }
             Kind::Unknown => {
                 monitor.error(Error::InvalidMetadata {
